@@ -322,7 +322,7 @@ func (s *State) evalInternal(node any) object.Object { //nolint:funlen,gocognit,
 		if oerr != nil {
 			return *oerr
 		}
-		return object.NewArray(elements)
+		return object.NewArray(derefAll(elements))
 	case *ast.MapLiteral:
 		return s.evalMapLiteral(node)
 	case *ast.IndexExpression:
@@ -820,7 +820,7 @@ func (s *State) extendFunctionEnv(
 		}
 	}
 	if fn.Variadic {
-		env.SetNoChecks("..", object.NewArray(extra), true)
+		env.SetNoChecks("..", object.NewArray(derefAll(extra)), true)
 	}
 	// Recursion is handle specially in Get (defining "self" and the function name in the env)
 	// For recursion in named functions, set it here so we don't need to go up a stack of 50k envs to find it
@@ -843,6 +843,14 @@ func (s *State) evalExpressions(exps []ast.Node) ([]object.Object, *object.Error
 		result = append(result, object.CopyRegister(evaluated))
 	}
 	return result, nil
+}
+
+// Containers hold values: replaces references to outer variables (and registers) by their current value.
+func derefAll(objs []object.Object) []object.Object {
+	for i, o := range objs {
+		objs[i] = object.Value(o)
+	}
+	return objs
 }
 
 func (s *State) evalIdentifier(node *ast.Identifier) object.Object {
